@@ -1,5 +1,5 @@
 """Runs TLC: trace validation (ImplTrace), trace monitoring (ObsTrace) and model checking; parses the output."""
-import json, os, re, subprocess, shutil, time
+import time, json, os, re, subprocess, shutil, time
 import scen, tracegen
 
 JAVA_OPTS = '-Xss1g -Dtlc2.tool.queue.IStateQueue=StateDeque'
@@ -112,7 +112,42 @@ def extract_print(out, key):
     return parse_tla_set(m.group(1).strip())
 
 
-def validate_impl(scn, fixes, lines, workdir, name='TR', timeout=600):
+def validate_impl(scn, fixes, lines, workdir, name='TR', timeout=600, chunk=400):
+    """Validates recorded runs against DesyncImpl in chunks of runs, each under the time limit. Runs of a chunk that ran out of time are
+    reported as not validated in time (neither accepted nor drift)."""
+    groups, cur = [], None
+    for line in lines:
+        if line.startswith('{"driver"') or ('"sched"' in line[:400] and '"run"' in line[:400] and '"t":' not in line[:40]):
+            cur = [line]
+            groups.append(cur)
+        elif cur is not None:
+            cur.append(line)
+    if len(groups) <= chunk:
+        res = _validate_impl_once(scn, fixes, lines, workdir, name, timeout)
+        if 'error' in res and res.get('rc') == 124:
+            return {'runs': {}, 'wall': res['wall'], 'records': [], 'out': '', 'labels': [], 'not_validated_in_time': len(groups)}
+        return res
+    total = {'runs': {}, 'wall': 0.0, 'records': [], 'out': '', 'labels': set(), 'not_validated_in_time': 0}
+    t_begin = time.time()
+    for c0 in range(0, len(groups), chunk):
+        part = groups[c0:c0 + chunk]
+        if time.time() - t_begin > 3 * timeout:
+            total['not_validated_in_time'] += len(part)
+            continue
+        res = _validate_impl_once(scn, fixes, [l for g in part for l in g], workdir, name, timeout)
+        if 'error' in res:
+            if res.get('rc') == 124:
+                total['not_validated_in_time'] += len(part)
+                continue
+            return res
+        total['runs'].update(res['runs'])
+        total['wall'] += res['wall']
+        total['labels'] |= set(res['labels'])
+    total['labels'] = sorted(total['labels'])
+    return total
+
+
+def _validate_impl_once(scn, fixes, lines, workdir, name='TR', timeout=600):
     """Validates recorded runs against DesyncImpl. Returns dict run -> {accepted, reached (index within run), steps, viols}"""
     copy_specs(workdir)
     tracegen.write_impl_trace(scn, fixes, workdir, name)
@@ -164,7 +199,7 @@ def obs_projection(run_recs):
     return tuple(key)
 
 
-def monitor_obs(scn, fixes, lines, workdir, name='OT', timeout=600, recs=None):
+def monitor_obs(scn, fixes, lines, workdir, name='OT', timeout=600, recs=None, chunk=600):
     """Monitor-only pass (no implementation model): returns dict run -> list of violated tags.
     Runs whose observable projection is identical are judged once."""
     copy_specs(workdir)
@@ -185,32 +220,49 @@ def monitor_obs(scn, fixes, lines, workdir, name='OT', timeout=600, recs=None):
             rep[key] = run
             members[key] = []
         members[key].append(run[0]['run'])
-    uniq = [r for run in rep.values() for r in run]
-    trace_file = os.path.join(workdir, name + '_trace.ndjson')
-    open(trace_file, 'w').write('\n'.join(json.dumps(r) for r in uniq) + '\n')
-    out, rc, wall = run_tlc(workdir, name, workers=1, extra_env={'TRACE': trace_file}, timeout=timeout)
-    viols = extract_print(out, 'VIOLS')
-    reached = extract_print(out, 'REACHED')
-    if viols is None or reached is None:
-        return {'error': out[-3000:], 'rc': rc, 'wall': wall}
-    runs, cur = {}, None
-    for i, r in enumerate(uniq, start=1):
-        if r['kind'] == 'run':
-            cur = r['run']
-            runs[cur] = {'viols': [], 'first': i + 1, 'last': None, 'complete': False}
-        elif r['kind'] == 'end':
-            runs[cur]['last'] = i
-            runs[cur]['complete'] = (i + 1) in set(reached)
-    for (l, vs) in viols:
-        for run, info in runs.items():
-            if info['first'] <= l <= (info['last'] or 10 ** 9) + 1:
-                for v in vs:
-                    if v not in info['viols']:
-                        info['viols'].append(v)
+    # The distinct projections are judged in chunks, each under the time limit; when the whole pass has used three times the limit the
+    # remaining projections are left unjudged (counted, reported in the evidence) instead of failing the check
+    reps = list(rep.values())
+    runs, outs, wall, unjudged, t_begin = {}, [], 0.0, 0, time.time()
+    for c0 in range(0, len(reps), chunk):
+        part = reps[c0:c0 + chunk]
+        if time.time() - t_begin > 3 * timeout:
+            unjudged += len(part)
+            continue
+        uniq = [r for run in part for r in run]
+        trace_file = os.path.join(workdir, name + '_trace.ndjson')
+        open(trace_file, 'w').write('\n'.join(json.dumps(r) for r in uniq) + '\n')
+        out, rc, w = run_tlc(workdir, name, workers=1, extra_env={'TRACE': trace_file}, timeout=timeout)
+        wall += w
+        outs.append(out[-2000:])
+        viols = extract_print(out, 'VIOLS')
+        reached = extract_print(out, 'REACHED')
+        if viols is None or reached is None:
+            if rc == 124:
+                unjudged += len(part)
+                continue
+            return {'error': out[-3000:], 'rc': rc, 'wall': wall}
+        part_runs, cur = {}, None
+        for i, r in enumerate(uniq, start=1):
+            if r['kind'] == 'run':
+                cur = r['run']
+                part_runs[cur] = {'viols': [], 'first': i + 1, 'last': None, 'complete': False}
+            elif r['kind'] == 'end':
+                part_runs[cur]['last'] = i
+                part_runs[cur]['complete'] = (i + 1) in set(reached)
+        for (l, vs) in viols:
+            for run, info in part_runs.items():
+                if info['first'] <= l <= (info['last'] or 10 ** 9) + 1:
+                    for v in vs:
+                        if v not in info['viols']:
+                            info['viols'].append(v)
+        runs.update(part_runs)
+    out = '\n'.join(outs)
     # give every run the verdict of its representative
     full = {}
     for key, run in rep.items():
         verdict = runs.get(run[0]['run'], {'viols': [], 'complete': False})
         for m in members[key]:
             full[m] = {'viols': list(verdict['viols']), 'complete': verdict['complete']}
-    return {'runs': full, 'wall': wall, 'out': out, 'distinct_projections': len(rep), 'representatives': [run[0]['run'] for run in rep.values()]}
+    return {'runs': full, 'wall': wall, 'out': out, 'distinct_projections': len(rep), 'unjudged_projections': unjudged,
+            'representatives': [run[0]['run'] for run in rep.values()]}
